@@ -17,8 +17,11 @@ import time
 
 VERIF = os.path.dirname(os.path.dirname(os.path.abspath(__file__)))
 REPO = os.environ.get("DRF_REPO", "/repo")
-COQ = os.path.join(VERIF, "coq")
-BUILD = os.path.join(VERIF, "build")
+# DRF_COQ / DRF_BUILD / DRF_EVIDENCE let seeded-change runs (harness/seedtest.py) work on private copies, so that
+# regenerated Gen/*.v, runner binaries and evidence of a patched tree never disturb the real checks
+COQ = os.environ.get("DRF_COQ") or os.path.join(VERIF, "coq")
+BUILD = os.environ.get("DRF_BUILD") or os.path.join(VERIF, "build")
+EVIDENCE = os.environ.get("DRF_EVIDENCE") or os.path.join(VERIF, "evidence")
 PYTHON = "/venv/bin/python"
 GUARD = "DIGITAL_RF_VERIF"
 
@@ -510,7 +513,7 @@ def finish(res, level="proof", checker_cmd=None):
     known = [k for k in load_known() if k.get("property") == prop]
     open_sigs = {k["signature"]: k for k in known if k.get("status") == "open"}
     os.makedirs(os.path.join(BUILD, "replay"), exist_ok=True)
-    os.makedirs(os.path.join(VERIF, "evidence"), exist_ok=True)
+    os.makedirs(EVIDENCE, exist_ok=True)
     for old in glob.glob(os.path.join(BUILD, "replay", "%s-*.json" % prop)):
         os.remove(old)
     new_viol = []
@@ -574,7 +577,7 @@ def finish(res, level="proof", checker_cmd=None):
     ev = {"property_id": prop, "tier": res.tier, "seed": res.seed, "level": level, "coverage": cov,
           "assumptions": res.assumptions, "wall_s": round(time.time() - res.t0, 2),
           "violations": len(new_viol) + (1 if (res.broken and not new_viol) else 0)}
-    json.dump(ev, open(os.path.join(VERIF, "evidence", "%s.json" % prop), "w"), indent=1, default=str)
+    json.dump(ev, open(os.path.join(EVIDENCE, "%s.json" % prop), "w"), indent=1, default=str)
     for ln in lines:
         print(ln)
     if code == 0:
